@@ -219,6 +219,58 @@ func opcodeTableRule(c *Ctx, rule string) {
 		isJump := operandAssignedToPC(handlers[n])
 		c.ob(rule, compilerPkg+".Compiler.adjustJumpTargets#jump-set:"+n, token.NoPos, jumpSet[n] == isJump, "opcode "+n+": jump relocation table says jump="+boolStr(jumpSet[n])+" but the VM handler assigns its operand to pc="+boolStr(isJump))
 	}
+	// embedded programs: an opcode whose handler runs a sub-range of the code as a program of its own (executeRaw, pc 0)
+	// carries jump targets that are relative to that body; the relocation walk must step over the body
+	if adj := c.fn(compilerPkg, "Compiler.adjustJumpTargets"); adj != nil {
+		nEmb := 0
+		for _, n := range names {
+			h := handlers[n]
+			if h == nil {
+				continue
+			}
+			embeds := false
+			for _, g := range withAnon(h) {
+				if reachesInstr(g, func(x ssa.Instruction) bool { return isCallTo(x, vmPath+".VM.executeRaw") }, 2, map[*ssa.Function]bool{}) {
+					embeds = true
+				}
+			}
+			if !embeds {
+				continue
+			}
+			nEmb++
+			skips := false
+			for _, b := range adj.Blocks {
+				iff := ifOf(b)
+				if iff == nil {
+					continue
+				}
+				bo, ok := iff.Cond.(*ssa.BinOp)
+				if !ok || bo.Op != token.EQL {
+					continue
+				}
+				isOp := func(v ssa.Value) bool {
+					k, ok := constInt(stripConv(v))
+					return ok && k == ops[n]
+				}
+				if !isOp(bo.X) && !isOp(bo.Y) {
+					continue
+				}
+				region := b.Succs[0]
+				for _, rb := range adj.Blocks {
+					if rb != region && !region.Dominates(rb) {
+						continue
+					}
+					for _, ins := range rb.Instrs {
+						if call, ok := ins.(*ssa.Call); ok && strings.HasPrefix(callName(call), "encoding/binary.littleEndian.Uint32") {
+							skips = true
+						}
+					}
+				}
+			}
+			c.ob(rule, compilerPkg+".Compiler.adjustJumpTargets#steps-over-embedded-body:"+n, adj.Pos(), skips, "the VM runs the body that follows "+n+" as a program of its own from pc 0 (executeRaw), so the jump targets inside it are body-relative; the relocation walk has no arm for "+n+" that decodes the body length and steps over it, so those targets get the header size added and every loop/if inside the body jumps out of it")
+		}
+		c.Sites[rule+"#embedded-program-opcodes"] = nEmb
+	}
 	// emit sites
 	k := 0
 	for _, fn := range c.srcFuncs(compilerPkg) {
